@@ -66,6 +66,13 @@ theorem gen_where_eq_model (indicator : List Bool) : where_ indicator = some (wh
     simp [h2]
 
 
+/-- **C08 on the regenerated code**: what `where`, as read off the current source, returns for a boolean array is
+    exactly the set of its maximal runs of true values (half-open, in scan order, pairwise separated) -/
+theorem gen_where_exactly_maximal_runs (ind : List Bool) :
+    ∃ runs, where_ ind = some runs ∧ (∀ a b, (a, b) ∈ runs ↔ IsRun ind a b) ∧
+      runs.Pairwise (fun r r' => r.2 ≤ r'.1) :=
+  ⟨whereRuns ind, gen_where_eq_model ind, whereRuns_spec ind, whereRuns_pairwise ind⟩
+
 /-! ### `get_moving_window_changepoints` -/
 section mw
 variable {α : Type} [LT α] [DecidableLT α]
